@@ -126,6 +126,7 @@ struct env_thr_ops {
 	int (*mutex_destroy)(pthread_mutex_t *);
 	int (*spin_lock)(pthread_spinlock_t *);
 	int (*spin_unlock)(pthread_spinlock_t *);
+	void (*lock_reinit)(void *);
 	int (*create)(pthread_t *, const pthread_attr_t *, void *(*)(void *), void *);
 	int (*join)(pthread_t, void **);
 	int (*detach)(pthread_t);
